@@ -6,6 +6,7 @@ import (
 	"go/token"
 	"go/types"
 	"sort"
+	"strings"
 )
 
 func init() {
@@ -233,6 +234,18 @@ func checkHandleLiteral(c *Ctx, ev *evaluator, cs *evalCase, e ast.Expr, key str
 	}
 	cl, ok := x.(*ast.CompositeLit)
 	if !ok {
+		// built by a constructor: its every return must be a handle of one fixed kind made from its parameter
+		if call, isCall := x.(*ast.CallExpr); isCall {
+			kind := "unknown callee"
+			if fo, ok := objOf(info, call.Fun).(*types.Func); ok {
+				kind = handleCtorKind(c, fo)
+			}
+			c.Check("R12.2", key+": a handle built by a constructor is always the kind of handle that was written", e.Pos(), kind == "production" || kind == "terminal",
+				"the handle is built by "+types.ExprString(call.Fun)+", which yields "+kind+": a rule handle whose production contains a terminal is recorded as that terminal instead of the rule",
+				"@right <expr = \"-\" expr>")
+		} else {
+			c.Undecided("R12.2", key+": handle expression", e.Pos(), "neither a handle literal nor a constructor call: "+types.ExprString(x))
+		}
 		return
 	}
 	fs, err := compositeFields(cl)
@@ -459,4 +472,70 @@ func checkPrecedenceStore(c *Ctx) {
 		})
 	}
 	c.Check("R12.3", "the list is never sorted or reversed", add.Pos(), !reorder, "a sort/reverse call reorders the precedence levels")
+}
+
+
+// handleCtorKind summarises a function returning *lr.PrecedenceHandle: "production" if every return is a literal with only
+// Production set, "terminal" if only Terminal, otherwise a description of the mixture.
+func handleCtorKind(c *Ctx, fo *types.Func) string {
+	if fo.Pkg() == nil {
+		return "a function without source"
+	}
+	p := c.All[fo.Pkg().Path()]
+	if p == nil {
+		return "a function without source"
+	}
+	var fd *ast.FuncDecl
+	AllFuncDecls(p, func(f *ast.FuncDecl) {
+		if p.TypesInfo.Defs[f.Name] == types.Object(fo) {
+			fd = f
+		}
+	})
+	if fd == nil || fd.Body == nil {
+		return "a function without source"
+	}
+	kinds := map[string]bool{}
+	ast.Inspect(fd.Body, func(n ast.Node) bool {
+		if _, ok := n.(*ast.FuncLit); ok {
+			return false
+		}
+		r, ok := n.(*ast.ReturnStmt)
+		if !ok || len(r.Results) != 1 {
+			return true
+		}
+		x := ast.Unparen(r.Results[0])
+		if u, ok := x.(*ast.UnaryExpr); ok {
+			x = u.X
+		}
+		cl, ok := x.(*ast.CompositeLit)
+		if !ok {
+			kinds["?"] = true
+			return true
+		}
+		fs, _ := compositeFields(cl)
+		_, t := fs["Terminal"]
+		_, pr := fs["Production"]
+		switch {
+		case t && !pr:
+			kinds["terminal"] = true
+		case pr && !t:
+			kinds["production"] = true
+		default:
+			kinds["?"] = true
+		}
+		return true
+	})
+	if len(kinds) == 1 {
+		for k := range kinds {
+			if k != "?" {
+				return k
+			}
+		}
+	}
+	var ks []string
+	for k := range kinds {
+		ks = append(ks, k)
+	}
+	sort.Strings(ks)
+	return "sometimes a " + strings.Join(ks, " and sometimes a ") + " handle"
 }
